@@ -51,8 +51,8 @@ CHECKS = {
     "C06": dict(
         category="other", design_ref="DESIGN.md §5 C06",
         technique="contract-based deductive verification of param2json_schema_property (E1: record with presence bits, Seq view of `required`, z3), lifted to json_schema() for parameter lists of any length by a fold lemma (Lean 4 kernel) under fold-shape side conditions checked on the real ast; run-time contracts over IR(n) with the 2020-12 meta-schema as oracle for the rest",
-        text="PROVED for all inputs: param2json_schema_property appends the name to `required` exactly when the type string does not start with 'Optional[', leaves `required` otherwise untouched (frame), turns a truthy doc into the description and never leaves a `typ` key; hence (Lean fold lemma required_is_filter + side conditions S1-S4 on json_schema(): fresh empty list, handed over only as the partial's keyword, mapped once over params.items() into dict(), same object emitted) the `required` list of the emitted schema is exactly the non-Optional parameter names in declaration order, for any number of parameters; on the parse side the set of names treated as required is the schema's own list, also when it is empty (rule S5, confirmed by a round-trip replay when it stops matching). "
-             "BOUNDED only: the whole-document clauses (required list of json_schema() in order, meta-schema validity, defaults validate against their property schema, Literal pattern accepts exactly the members, serialisable, parse-back equality) over the JSON-representable slice of IR(n).",
+        text="PROVED for all inputs: param2json_schema_property appends the name to `required` exactly when the type string does not start with 'Optional[', leaves `required` otherwise untouched (frame), turns a truthy doc into the description and never leaves a `typ` key; hence (Lean fold lemma required_is_filter + side conditions S1-S4 on json_schema(): fresh empty list, handed over only as the partial's keyword, mapped once over params.items() into dict(), same object emitted) the `required` list of the emitted schema is exactly the non-Optional parameter names in declaration order, for any number of parameters; on the parse side the set of names treated as required is the schema's own list, also when it is empty (rule S5, confirmed by a round-trip replay when it stops matching); Literal <-> pattern: the emitter joins the members with a one-character constant and the parser splits the pattern at the same constant into the members (rules S6 / S7), so by the Lean lemma pattern_roundtrip (List.splitOn_intercalate) any number of members none of which contains the separator come back as the same members. "
+             "BOUNDED only: the whole-document clauses (required list of json_schema() in order, meta-schema validity, defaults validate against their property schema, Literal pattern accepts exactly the members, serialisable, parse-back equality) over the JSON-representable slice of IR(n), incl. Literal members with regular-expression metacharacters, the separator or a quote in them (three known findings: members are joined and quoted unescaped).",
         note="Assumed: dict(map(f, xs)) calls f once per item in order (CPython); the composition callee contract + fold lemma + S1-S4 is a paper step (each part machine-checked). jsonschema's Draft202012Validator is the oracle for validity."),
     "C16": dict(
         category="other", design_ref="DESIGN.md §5 C16",
